@@ -195,10 +195,19 @@ def classify_consumption(ctx, b, cs):
                         if (('v', 'Err'), ('f', '0'), ('v', v), ('f', '0')) in paths:
                             srcs |= set(fl.local_sources(l))
                     t = fl.forward(srcs)
+                    # `Err(e @ Variant(_)) => return Err(e)`: inside this variant's arm the WHOLE error value is the io-carrying one
+                    reach_v = b.reach([tgt])
+                    w_srcs = set()
+                    for l, paths in known.items():
+                        if (('v', 'Err'), ('f', '0')) in paths:
+                            w_srcs |= set(fl.local_sources(l))
+                    t_whole = fl.forward(w_srcs)
+                    whole_out = [e for e in err_exits if e['point'] in reach_v and e['ops'] and fl.op_tainted(e['ops'][0], t_whole) and e.get('adt') is None]
+                    if whole_out:
+                        t = t | t_whole
                     if not any(e['ops'] and (fl.op_tainted(e['ops'][0], t) or any(fl.op_tainted(o, t) for o in e.get('inner_ops', []))) for e in err_exits):
                         problems.append('the io::Error carried by %s does not flow to an Err exit' % v)
                     # every way out of this arm must report the I/O error itself (not a skippable error)
-                    reach_v = b.reach([tgt])
                     for e in b.exits():
                         if e['point'] not in reach_v:
                             continue
